@@ -793,5 +793,8 @@ func gcHas[K comparable, V any](m map[K]V, k K) bool { _, ok := m[k]; return ok 
 func gcSameArray[T any](a, b []T) bool { return len(a) > 0 && len(b) > 0 && &a[0] == &b[0] }
 func gcSameStorage[T any](a, b []T) bool { return false }
 func gcWithin[T any](a, b []T) bool { return false }
+// gcU64: the []uint64 view of the storage of a byte slice (what z.BytesToUint64Slice constructs)
+func gcU64(b []byte) []uint64 { return nil }
+func gcWfSlice[T any](a []T) bool { return true }
 // ---- end of contract prelude ----
 `
